@@ -326,10 +326,6 @@ def run(rc):
 
 
 def replay(data):
-    from ..replay import replay_grammar_case
-
-    def grammar_of(d):
-        exp = d['grammar']
-        return ('top: v:start rest:REST ;\n\nstart: ' + exp + ' ;\n\n' + '\n\n'.join(gs.render_rule(r) for r in HELPERS)
-                + '\n\nREST: /[\\s\\S]*/ ;\n')
-    return replay_grammar_case(data, grammar_of)
+    import sys
+    from ..replay import replay_by_rerun
+    return replay_by_rerun(sys.modules[__name__], data)
